@@ -7,6 +7,7 @@ import (
 	"fmt"
 	"net"
 	"net/http"
+	"sync"
 	"sync/atomic"
 	"time"
 
@@ -133,5 +134,74 @@ func (l *lane) hookPanics() {
 				l.prev = again
 			}
 		}
+	}
+}
+
+// hangupBursts (added after the seeded regression showed that C16-L - a lost wake-up between net/http closing a handed-over
+// connection and serveConn waiting for it - had been caught by luck): rounds of 48 HTTP/1.1 clients that finish the
+// handshake at the same moment and hang up at once, so that hand-overs to the HTTP/1.1 server queue up and the
+// connections are closed before their serving goroutines wait for them. Conservation per round: the total must
+// grow by exactly the number of connections accepted in the round.
+func (l *lane) hangupBursts() {
+	run := l.run
+	for r := 0; r < run.Pick(8, 80) && run.Violations() < 8; r++ {
+		before := l.gather(nil)
+		seen := l.acct.Accepted()
+		var wg sync.WaitGroup
+		gate := make(chan struct{})
+		var ok int64
+		for k := 0; k < 48; k++ {
+			wg.Add(1)
+			go func() {
+				defer wg.Done()
+				<-gate
+				c, err := tls.DialWithDialer(&net.Dialer{Timeout: 10 * time.Second}, "tcp", l.px.Addr, &tls.Config{InsecureSkipVerify: true, ServerName: "front.example", NextProtos: []string{"http/1.1"}})
+				if err != nil {
+					return
+				}
+				atomic.AddInt64(&ok, 1)
+				c.Close()
+			}()
+		}
+		close(gate)
+		wg.Wait()
+		w := map[string]any{"mode": "hangup-burst", "round": r, "clients_that_finished_their_handshake": ok, "before": before.String()}
+		if !l.acct.WaitAllClosed(15 * time.Second) {
+			run.Violation("not-counted/server-never-finishes-with-the-connection", w, "hang-up burst round %d: 15 s after every client has left, the proxy has not closed every accepted connection", r)
+			return
+		}
+		accepted := int64(l.acct.Accepted() - seen)
+		closedAt := time.Now()
+		var now snap
+		for {
+			now = l.gather(w)
+			if now.total()-before.total() >= accepted {
+				break
+			}
+			if time.Since(closedAt) > settleBound {
+				w["after"] = now.String()
+				run.Violation("not-counted/hangup-burst", w, "hang-up burst round %d: %d connections were accepted and are all closed since %v, requests_total moved by %d (%v)", r, accepted, time.Since(closedAt).Round(time.Millisecond), now.total()-before.total(), diff(now, before))
+				return
+			}
+			time.Sleep(2 * time.Millisecond)
+		}
+		time.Sleep(singleRecheck)
+		again := l.gather(w)
+		run.Eval(1)
+		run.Distinct(fmt.Sprintf("hangup-burst|%d", r))
+		run.Add("hangup_burst_rounds", 1)
+		run.Add("hangup_burst_connections", accepted)
+		if again.total()-before.total() != accepted {
+			w["after"] = again.String()
+			run.Violation("counted-again/hangup-burst", w, "hang-up burst round %d: %d connections accepted, requests_total moved by %d (%v)", r, accepted, again.total()-before.total(), diff(again, before))
+			return
+		}
+		for k := range diff(again, before) {
+			if k != lblFail && k != lblOK("http/1.1") {
+				run.Violation("label-outside-domain", w, "hang-up burst round %d: a connection was counted as %v", r, k)
+			}
+		}
+		l.seen = l.acct.Accepted()
+		l.prev = again
 	}
 }
